@@ -93,6 +93,7 @@ type model struct {
 	dirty      bool // cluster changed since the last await
 	topicSeq   int
 	auto       int
+	internal   bool // the cluster has an internal topic, which metadata steps may name
 }
 
 func (m *model) otherThan(t *rapid.T, id int32, label string) (int32, bool) {
@@ -207,6 +208,9 @@ func genRequestOf(t *rapid.T, m *model, op, label string) (step, bool) {
 		}
 		pool := append([]string{}, m.order...)
 		pool = append(pool, "zzz-unknown", "aaa-unknown", "n0", "t", "t00", "t9")
+		if m.internal {
+			pool = append(pool, "__consumer_offsets", "__consumer_offsets")
+		}
 		n := rapid.IntRange(0, 4).Draw(t, label+"nn")
 		names := []string{}
 		for i := 0; i < n; i++ {
@@ -394,6 +398,8 @@ func genCase(t *rapid.T, stratum int) routeCase {
 	heavy := stratum == 1 || rapid.IntRange(0, 3).Draw(t, "heavyversions") == 0
 	c.SASL = rapid.IntRange(0, 4).Draw(t, "sasl") == 0
 	m := &model{bootstrap: map[int32]bool{}, topics: map[string][]int32{}, coords: map[string]int32{}, nextID: int32(nb + 1)}
+	c.InternalTopic = rapid.IntRange(0, 3).Draw(t, "internalTopic") == 0
+	m.internal = c.InternalTopic
 	for i := 1; i <= nb; i++ {
 		b := brokerSpec{ID: int32(i), Rack: rapid.SampledFrom([]string{"", "", "r1", "r2"}).Draw(t, fmt.Sprintf("rack%d", i))}
 		if rapid.IntRange(0, 4).Draw(t, fmt.Sprintf("b%dplain", i)) != 0 || heavy {
